@@ -82,6 +82,8 @@ RulesRouter(r, c, o) ==
   LET resp == o.class = "response" IN
   { <<"C11.channel:" \o r,  resp => o.channel = Channel(c)>>,
     <<"C11.target:" \o r,   resp => o.target = "same">>,
+    \* C03: whatever was served before (e.g. a form_post page of ANOTHER client whose connection broke), this response goes to this request's URI
+    <<"C03.response.target:" \o r, resp => o.target = "same">>,
     <<"C11.query.preserved:" \o r, resp => o.kept>>,
     <<"C11.state:" \o r,    resp => o.state = (IF c.state = <<>> THEN "absent" ELSE "intact")>>,
     <<"C11.session:" \o r,  (resp /\ HasSession(c)) => o.session = "intact">>,
